@@ -531,7 +531,9 @@ func r146(c *Ctx) {
 
 // ---- R14.7 a visited set is installed only below a single check / expand --------------------------------
 
-func r147(c *Ctx) {
+func r147(c *Ctx) { visitedInstallScope(c, "R14.7") }
+
+func visitedInstallScope(c *Ctx, rule string) {
 	p, r := c.P, c.R
 	g := p.KG()
 	var roots []*ssa.Function
@@ -541,7 +543,7 @@ func r147(c *Ctx) {
 		}
 	}
 	if len(roots) < 2 {
-		r.Undecide("R14.7", "", "anchor single-request roots", "", "CheckRelationTuple / BuildTree not found")
+		r.Undecide(rule, "", "anchor single-request roots", "", "CheckRelationTuple / BuildTree not found")
 		return
 	}
 	below := map[*ssa.Function]bool{}
@@ -576,13 +578,13 @@ func r147(c *Ctx) {
 						okSite = true
 					}
 				}
-				r.Check(okSite, "R14.7", core.FuncName(fn), "call of graph."+sc.Name(), p.Pos(ins.Pos()),
+				r.Check(okSite, rule, core.FuncName(fn), "call of graph."+sc.Name(), p.Pos(ins.Pos()),
 					"the visited set is installed inside the evaluation of a single check / expand",
 					"a visited set is installed by code that is not below a single CheckRelationTuple/BuildTree (it fans out several checks with one context): the checks share cycle-detection state and one skips what another visited")
 			})
 		}
 	}
 	if n < 4 {
-		r.Undecide("R14.7", "", "visited-set installer call sites", "", fmt.Sprintf("%d found (floor 4)", n))
+		r.Undecide(rule, "", "visited-set installer call sites", "", fmt.Sprintf("%d found (floor 4)", n))
 	}
 }
